@@ -7,7 +7,8 @@ The scratch worktree is removed afterwards."""
 import sys, os, subprocess, json, shutil, tempfile, re
 prop, k = sys.argv[1], sys.argv[2]
 extra = sys.argv[3:]
-src = f"/tmp/seed-{prop}/OUT"
+rnd = os.environ.get("ROUND", "1")
+src = f"/tmp/seed-{prop}/OUT" if rnd == "1" else f"/tmp/seed{rnd}-{prop}/OUT"
 patch = f"{src}/change{k}.diff"
 demo = f"{src}/demo{k}_test.go"
 env = dict(os.environ, GOFLAGS="-mod=mod", GOPROXY="off", GOSUMDB="off", GOTOOLCHAIN="local")
@@ -36,7 +37,7 @@ try:
     rc, out = run(f"go test -vet=off -count=1 -run '{pat}' .", wt); ran.append(("demo with the change", rc))
     if rc == 0: print("REJECT: demo passes with the change"); sys.exit(1)
     fail_excerpt = "\n".join([l for l in out.splitlines() if "FAIL" in l or "Error" in l or "expected" in l][:8])
-    dst = f"/verif/seeded/{prop}-{k}"
+    dst = f"/verif/seeded/{prop}-{k}" if rnd == "1" else f"/verif/seeded/{prop}-r{rnd}-{k}"
     os.makedirs(dst, exist_ok=True)
     shutil.copy(patch, f"{dst}/patch.diff"); shutil.copy(demo, f"{dst}/demo_test.go")
     notes = open(f"{src}/notes.md").read() if os.path.exists(f"{src}/notes.md") else ""
